@@ -78,6 +78,9 @@ def run(chk, repo, tier):
     from .c06 import disjoint_rules
     from .c20 import helper_rules
     disjoint_rules(Remap(chk, {'C06-f': 'C03-c'}), repo)
+    # where the merged segment fields are placed: shape, centre and slices of the union against its bounding box
+    from .c06 import merge_helper_rules
+    merge_helper_rules(Remap(chk, {'C06-b': 'C03-c'}), repo)
     chk.clause('C03-k', 'segment fields multiply like embedded arrays: a one-element operand inherits the shape and offset of the other (mirror-image cases); the product is taken on the overlap', 3)
     from .c06 import product_rules
     product_rules(chk, repo, 'C03-k')
@@ -91,6 +94,8 @@ def run(chk, repo, tier):
     own_storage_rule(chk, repo, 'C03-p')
     from .prop_flow import skip_rule as _skip_rule
     _skip_rule(chk, repo, 'C03-p')
+    from .prop_flow import per_field_shift_rule as _pfs_rule
+    _pfs_rule(chk, repo, 'C03-p')
     _c09.run(Remap(chk, {'C09-d': 'C03-p', 'C09-f': 'C03-p'}), repo, tier)
     # a cropped sub-array is transformed about its own origin floor(n/2) on each axis (plus its offset): the kernel
     # coordinate origins of the DFT
